@@ -37,15 +37,15 @@ from ..realise import puritydocs as PD  # noqa: E402
 SPEC = os.path.join(SPECS, "purity", "MC_Purity.tla")
 TRACE_SPEC = os.path.join(SPECS, "purity", "PurityTrace.tla")
 ADDRESS_DEVS = ("InlineNameIsAddress", "TieBreakByAddress")
-DANGEROUS = ["EncodingNoCopy", "ColorSpaceNoCopy", "UseCMapAlias", "UMapKeyCoarse", "SharedManager", "DecipherTwice",
+DANGEROUS = ["EncodingNoCopy", "EncodingLazyCopy", "ColorSpaceNoCopy", "UseCMapAlias", "UMapKeyCoarse", "SharedManager", "DecipherTwice",
              "DescendantNoCopy", "InlineNameIsAddress", "TieBreakByAddress"]
 # the smallest pool / number of calls in which each dangerous alternative breaks Functional
-REFUTE_IN = {"EncodingNoCopy": ('{"dA", "dB"}', 2), "ColorSpaceNoCopy": ('{"dA", "dC"}', 2), "UseCMapAlias": ('{"dA"}', 2),
+REFUTE_IN = {"EncodingNoCopy": ('{"dA", "dB"}', 2), "EncodingLazyCopy": ('{"dA", "dB"}', 2), "ColorSpaceNoCopy": ('{"dA", "dC"}', 2), "UseCMapAlias": ('{"dA"}', 2),
              "UMapKeyCoarse": ('{"dA", "dB"}', 2), "SharedManager": ('{"dA", "dB"}', 2), "DecipherTwice": ('{"dC"}', 1),
              "DescendantNoCopy": ('{"dA"}', 1), "InlineNameIsAddress": ('{"dA"}', 1), "TieBreakByAddress": ('{"dB"}', 1)}
 ACTIONS = ["Open", "Extract", "Next", "Close", "UseCMap", "ADocOpen", "APageStart", "AInitColorSpacesCopy", "AFontCacheHit",
            "AFontMiss", "AGetFontSpec", "AGetObjParsed", "ADecipherAllInPlace", "ACopyDescendantSpec", "AGetEncodingShared",
-           "AGetEncodingCopyOnWrite", "AParseToUnicode", "ACMapCacheFill", "ACMapCacheHit", "AUMapCacheFill",
+           "AGetEncodingCopyOnWrite", "ADifferencesAssign", "ADifferencesPop", "AParseToUnicode", "ACMapCacheFill", "ACMapCacheHit", "AUMapCacheFill",
            "AUMapCacheHit", "AResolveAllInPlace", "AFontCacheFill", "ARender", "AUseCMapCopy", "AAddCode2Cid"]
 INVARIANTS = ["CacheKeySound", "CMapCacheSound", "DecipheredOnce", "CachedObjectsAsParsed", "ClientOwnsItsTable"]
 PROPERTIES = ["SharedTablesImmutable", "CachesAppendOnly"]
@@ -511,11 +511,35 @@ def grid_doc():
     return simple_doc([b"\n".join(parts), b"BT /F1 12 Tf 40 500 Td (second page) Tj ET"])[0]
 
 
+def differences_doc(base, diffs):
+    """a simple font over a shared base encoding whose /Differences array is `diffs` (e.g. starting with a glyph name that
+    has no Unicode value: that entry REMOVES a code - from the font's own copy of the table, never from the shared one)"""
+    from ..realise.pdfwriter import simple_doc, type1_font
+    f = type1_font("Helvetica", Encoding={"Type": PD.Name("Encoding"), "BaseEncoding": PD.Name(base), "Differences": list(diffs)})
+    return simple_doc([b"BT /F1 12 Tf 72 700 Td (ABC abc) Tj ET"], fonts={"F1": f})[0]
+
+
 def std14_doc(widths):
     """a standard-14 font (metrics come from the shared FONT_METRICS table) that also carries its own /Widths"""
     from ..realise.pdfwriter import simple_doc, type1_font
     f = type1_font("Helvetica", FirstChar=65, LastChar=66, Widths=list(widths), Encoding=PD.Name("WinAnsiEncoding"))
     return simple_doc([b"BT /F1 10 Tf 40 700 Td (AB) Tj ET", b"BT /F1 10 Tf 40 600 Td (BA) Tj ET"], fonts={"F1": f})[0]
+
+
+def generated_corpus(docs):
+    """label -> bytes of the generated documents that join the repository samples in the recorded histories"""
+    N = PD.Name
+    out = {"generated:" + d: docs[d] for d in PD.DOCS}
+    out["generated:grid"] = grid_doc()
+    out["generated:std14-wide"] = std14_doc((900, 100))
+    out["generated:std14-narrow"] = std14_doc((100, 900))
+    for base in ("WinAnsiEncoding", "MacRomanEncoding", "StandardEncoding"):
+        # removal first, removal only, removal after an entry that repeats the base table, plain use of the same base
+        out["generated:diff-pop-first:" + base] = differences_doc(base, [65, N("g1234"), N("bullet")])
+        out["generated:diff-pop-only:" + base] = differences_doc(base, [97, N("g77")])
+        out["generated:diff-same-then-pop:" + base] = differences_doc(base, [67, N("C"), 99, N("g88")])
+        out["generated:diff-none:" + base] = differences_doc(base, [])
+    return out
 
 
 def record_history(args):
@@ -630,11 +654,8 @@ def direction_b(ck, fp, docs, dev):
     corpus = {}
     for f in files:
         corpus[os.path.relpath(f, "/repo/samples")] = {"src": f, "password": OBS.password_for(f)}
-    for d in PD.DOCS:
-        corpus["generated:" + d] = {"src": docs[d], "password": ""}
-    corpus["generated:grid"] = {"src": grid_doc(), "password": ""}
-    corpus["generated:std14-wide"] = {"src": std14_doc((900, 100)), "password": ""}
-    corpus["generated:std14-narrow"] = {"src": std14_doc((100, 900)), "password": ""}
+    for lab, data in generated_corpus(docs).items():
+        corpus[lab] = {"src": data, "password": ""}
     labels = list(corpus)
     for lab, n in zip(labels, fp.map([{"op": "npages", "src": corpus[x]["src"], "password": corpus[x]["password"]} for x in labels])):
         corpus[lab]["npages"] = n
@@ -832,14 +853,13 @@ def replay(path):
             for m in out["mismatch"][:10] + [ex for (_, ex) in out.get("dev", {}).values()]:
                 print("  schedule %d event %d %s %r: %s\n    %s" % m)
         elif c.get("kind") in ("recorded-call", "fresh-call"):
+            gen = generated_corpus(docs)
             if c.get("kind") == "recorded-call":
                 for (lab, k, cc, p) in c.get("history", []):
-                    src = docs[lab.split(":")[1]] if lab.startswith("generated:") and lab.split(":")[1] in docs else \
-                        (grid_doc() if lab == "generated:grid" else os.path.join("/repo/samples", lab))
+                    src = gen[lab] if lab in gen else os.path.join("/repo/samples", lab)
                     OBS.run_call(k, src, cc, p, OBS.password_for(src) if isinstance(src, str) else "")
             lab = c["doc"]
-            src = docs[lab.split(":")[1]] if lab.startswith("generated:") and lab.split(":")[1] in docs else \
-                (grid_doc() if lab == "generated:grid" else (docs[lab] if lab in docs else os.path.join("/repo/samples", lab)))
+            src = gen[lab] if lab in gen else (docs[lab] if lab in docs else os.path.join("/repo/samples", lab))
             pw = OBS.password_for(src) if isinstance(src, str) else ""
             got = OBS.run_call(c["entry"], src, c["caching"], c["pages"], pw)
             want = fp.ask(0, {"op": "call", "kind": c["entry"], "src": src, "caching": c["caching"], "pages": c["pages"], "password": pw})
